@@ -74,7 +74,7 @@ def wb_history(rng, big):
         now = rng.randrange(lo, hi + 1)
         ts = now // SEC + rng.choice([0, 0, 0, -1, 1, -tol_s, tol_s])
         q = {"ts": ts, "nonce": "f%d" % fi, "body": b"", "path": "/hooks", "secret": secrets[0]}
-        events.append((now, "filler" if rng.random() < 0.9 else "valid", q))
+        events.append((now, "filler" if rng.random() < 0.97 else "valid", q))
     monotone = rng.random() < 0.8
     if monotone:
         events.sort(key=lambda e: e[0])
@@ -109,6 +109,7 @@ def wb_history(rng, big):
             sig = sig.upper()
         elif kind == "filler":
             sig = "zz"
+            e_fill = (q["ts"], int(q["nonce"][1:]))
         if kind == "nononce":
             hs = [(names[0], sig), (names[1], ts_text)]
         elif kind == "blanknonce":
@@ -116,6 +117,7 @@ def wb_history(rng, big):
         else:
             hs = [(names[0], sig), (names[1], ts_text), (names[2], nonce)]
         out.append({"op": "verify", "now": now, "method": "POST", "path": q["path"], "headers": hs,
+                    "_fill": e_fill if (kind == "filler" and q["ts"] >= 0 and q["path"] == "/hooks" and q["body"] == b"") else None,
                     "body": q["body"].hex(), "snap": (i % snap_every == 0) or q["nonce"][0] != "f",
                     "_kind": kind, "_nonce": q["nonce"], "_ts": q["ts"], "_tol": cur_tol})
     return {"cfg": cfg, "events": out, "_monotone": monotone, "_names": names}
@@ -130,8 +132,12 @@ def model_cfg(cfg):
 def wb_coq(hist):
     I = G.Intern()
     evs = []
+    mc = model_cfg(hist["cfg"])
+    nm = "(%s, %s, %s)" % (I.b(mc["sig"]), I.b(mc["ts"]), I.b(mc["nonce"]))
     for e in hist["events"]:
-        if e["op"] == "verify":
+        if e["op"] == "verify" and e.get("_fill"):
+            evs.append("WReq %s (wfill NM %d%%N %d%%N) %s" % (G.cz(e["now"]), e["_fill"][0], e["_fill"][1], G.cbool(e["snap"])))
+        elif e["op"] == "verify":
             hm = G.header_map(e["headers"])
             evs.append("WReq %s %s %s" % (G.cz(e["now"]), G.coq_hreq(I, e["method"], e["path"], hm, bytes.fromhex(e["body"])), G.cbool(e["snap"])))
         else:
@@ -140,6 +146,7 @@ def wb_coq(hist):
     body = ["From Coq Require Import ZArith List Bool NArith.",
             "From HK Require Import Model.NonceCache Model.Hmac Model.ReloadAuth Model.HmacHistory Model.AuthEval.",
             "Import ListNotations.", "Open Scope Z_scope.", I.preamble(),
+            "Definition NM : list N * list N * list N := %s." % nm,
             "Definition H : list wev := %s." % G.clist(evs),
             "Definition R := Eval vm_compute in wb_run %s [] H." % cfg0, "Print R."]
     return "\n".join(body) + "\n"
@@ -225,7 +232,7 @@ def bb_scenarios(rng, tier):
     scen("reload-readd-tolerance-shrunk", "replay-after-readd", [cfg("5m"), cfg(hooks="none"), cfg("2s")],
          [{"op": "load", "cfg": 0}, req(t, R), {"op": "load", "cfg": 1}, {"op": "load", "cfg": 2}, req(t + 2 * SEC, R)])
     # random reload placements
-    n_rand = 6 if tier == "quick" else 40
+    n_rand = 6 if tier == "quick" else 80
     for k in range(n_rand):
         pool = [cfg("5m"), cfg("5m", secrets=("raw:k1", "raw:kx")), cfg(hooks="none"), cfg(hooks="open"), cfg("1s"), cfg("3s")]
         steps = [{"op": "load", "cfg": 0}]
@@ -332,8 +339,8 @@ def main(ctx, replay):
             "wb_inherits": 0, "wb_nonmonotone": 0, "bb_scenarios": 0, "bb_requests": 0, "bb_reloads": 0, "bb_202": 0, "bb_401": 0, "bb_404": 0}
 
     # ---------------- white-box
-    n_small = 24 if ctx.tier == "quick" else 200
-    bigs = [700, 1500] if ctx.tier == "quick" else [1500, 3000, 3000, 5000, 2000, 4000, 2500, 3500]
+    n_small = 24 if ctx.tier == "quick" else 400
+    bigs = [1000, 2000] if ctx.tier == "quick" else [1500, 3000, 3000, 5000, 2000, 4000, 2500, 3500]
     hists = [wb_history(rng, False) for _ in range(n_small)] + [wb_history(rng, b) for b in bigs]
     rc, out, err = C.harness_run(info["hbin"], ["hmac-seq"], {"histories": [strip(h) for h in hists]})
     if rc != 0:
